@@ -112,6 +112,8 @@ MUTANTS = [
     ('c02-restarted-repeating-engine-dead-until-its-thread-runs-unfixed', 'C02', 'c02', 2400, 'python/experiment/runtime/engine.py',
      "            self.lastExecution = True\n\n            try:\n                threading.Thread(target=runRestart).start()",
      "            try:\n                threading.Thread(target=runRestart).start()"),
+    ('c13-engine-reported-dead-while-its-monitor-is-inside-an-iteration-unfixed', 'C13', 'c13', 1500, 'python/experiment/runtime/engine.py',
+     "        if self.lastExecution is False and self._iterationInProgress is False:\n", "        if self.lastExecution is False:\n"),
     ('c14-instance-description-written-in-place', 'C14', 'c14rt', 192, 'python/experiment/model/conf.py',
      "        temp_file = '%s.%s.tmp' % (instance_file, uuid.uuid4())\n", "        temp_file = instance_file\n"),
     ('c14-status-written-in-place', 'C14', 'c14rt', 192, 'python/experiment/model/data.py',
